@@ -340,6 +340,59 @@ def prelim (E : Env α β) (ftol ptol : Tol α) (peaks : List (Peak α)) (z mfc 
 
 end order
 
+/-! ## `trim_hits` (what survives of the preliminary hits, and what is counted) -/
+
+/-- `50.clamp((report_psms * 2).min(len), len)` -/
+def trimK (reportPsms len : Nat) : Nat :=
+  let lo := min (2 * reportPsms) len
+  if 50 < lo then lo else if len < 50 then len else 50
+
+/-- `PreScore`'s derived `Ord`: lexicographic on (matched, peptide, precursor_charge, isotope_error) -/
+def Pre.le (a b : Pre) : Bool :=
+  a.matched < b.matched || (a.matched == b.matched &&
+    (a.pep < b.pep || (a.pep == b.pep &&
+      (a.charge < b.charge || (a.charge == b.charge && a.iso ≤ b.iso)))))
+
+/-- `InitialHits`: `len` = number of slots of `preliminary` (slots with `matched = 0` included — they enter
+    `trim_hits`' `k`), `pos` = the slots with `matched > 0`, `matchedPeaks` / `scoredCandidates` = the two counters
+    (incremented while matching, i.e. BEFORE any trimming; `+=` adds them up over sub-searches) -/
+structure Hits where
+  len : Nat := 0
+  pos : List Pre := []
+  matchedPeaks : Nat := 0
+  scoredCandidates : Nat := 0
+
+/-- `impl AddAssign<InitialHits>` -/
+def Hits.add (a b : Hits) : Hits :=
+  { len := a.len + b.len, pos := a.pos ++ b.pos, matchedPeaks := a.matchedPeaks + b.matchedPeaks,
+    scoredCandidates := a.scoredCandidates + b.scoredCandidates }
+
+/-- `trim_hits`: `bounded_min_heapify(k)` + `truncate(k)` keep the `k` largest slots (C02/C10: `heapify_topk`);
+    every slot with a match is larger than every empty slot, and distinct hits are distinct in the order, so the
+    surviving matched slots are the `k` largest of `pos`. The counters are untouched. -/
+def Hits.trim (reportPsms : Nat) (h : Hits) : Hits :=
+  let k := trimK reportPsms h.len
+  { h with len := min k h.len, pos := (h.pos.mergeSort (fun a b => Pre.le b a)).take k }
+
+/-- one `matched_peaks_with_isotope` sub-search: `slots` = `pre_idx_hi - pre_idx_lo + 1`, `pos` = its hits;
+    `if hits.matched_peaks == 0 { return hits }` else `trim_hits` -/
+def Hits.ofSub (reportPsms slots : Nat) (pos : List Pre) : Hits :=
+  let h : Hits := { len := slots, pos := pos, matchedPeaks := (pos.map (·.matched)).sum, scoredCandidates := pos.length }
+  if h.matchedPeaks = 0 then h else h.trim reportPsms
+
+/-- `matched_peaks`: one sub-search per isotope error, summed and trimmed again when the range is proper;
+    a single sub-search (isotope error 0) otherwise -/
+def Hits.overIsotopes (reportPsms : Nat) (isoLo isoHi : Int) (sub : Int → Hits) : Hits :=
+  if isoLo ≠ isoHi then ((isotopes isoLo isoHi).foldl (fun (acc : Hits) e => acc.add (sub e)) {}).trim reportPsms
+  else sub 0
+
+/-- `initial_hits`: a single `matched_peaks` when the charge is annotated (and not overridden), the sum over the
+    assumed charges otherwise; `trim_hits` once more at the end -/
+def Hits.overCharges (reportPsms : Nat) (single : Option Nat) (charges : List Nat) (perCharge : Nat → Hits) : Hits :=
+  (match single with
+   | some z => perCharge z
+   | none => charges.foldl (fun (acc : Hits) z => acc.add (perCharge z)) {}).trim reportPsms
+
 /-- the fields of `Feature` this property is about -/
 structure Feat (α β : Type) where
   pep : Nat
